@@ -924,8 +924,11 @@ class CompositeEnvelope:
             if all(s in ps.state_objs for s in state_objs):
                 return
 
-        # Check if all states are included in composite envelope
-        assert all(s in self.state_objs for s in state_objs)
+        # Check if all states are included in composite envelope (by identity: a Fock
+        # state compares equal to any other Fock state holding the same value)
+        assert all(
+            any(s is member for member in self.state_objs) for s in state_objs
+        ), "All states need to be a part of this composite envelope"
 
         """
         Get all product states, which include any of the
